@@ -351,4 +351,7 @@ def main(tier):
     check_retcodes(rep, mod)
     check_field_pairing(rep, mod)
     check_resume(rep, mod)
+    import acct
+    acct.check(rep, 'z', 4, field_offsets('struct isal_zstream', ['next_in', 'avail_in', 'total_in', 'next_out', 'avail_out', 'total_out']),
+               field_offsets('struct inflate_state', ['next_in', 'avail_in', 'next_out', 'avail_out', 'total_out']), mod, only={'isal_write_gzip_header', 'isal_write_zlib_header'}, suffix='HDR-WRITERS')
     return rep.finish()
